@@ -244,4 +244,25 @@ all the rows of the group. -/
 theorem group_answer (series : List (List Row)) :
     (series.map (mergeOf ty)).foldl (Stats.merge ty) {} = mergeOf ty series.flatten := (mergeOf_flatten ty series).symm
 
+/-- **a group of series** (GROUP BY tag, or the whole measurement): merging the per-series
+answers of the store equals the record of all the rows the plain select returns for the group,
+under the same condition as for one series, required of every series of the group. -/
+theorem group_answer_eq_rows (q : QueryShape) (lo hi : Int) (ps : List (SeriesData × List Row))
+    (h : ∀ p ∈ ps, p.1.WF ∧ StrictAsc p.2 ∧ (matchPreAgg q = true → p.2 = viewRows lo hi p.1) ∧
+      (q.hint = Hint.ExactStatisticQuery ∨ q.hasInterval = true ∨ q.ctxFieldCond = true ∨
+        q.schemaFieldCond = true ∨ NoKeyTwiceIn lo hi p.1)) :
+    (ps.map (fun p => answer q lo hi p.1 p.2)).foldl (Stats.merge ty) {} =
+      mergeOf ty (ps.map (·.2)).flatten := by
+  rw [mergeOf_flatten, List.map_map]
+  congr 1
+  apply List.map_congr_left
+  intro p hp
+  obtain ⟨hw, hs, hsel, hc⟩ := h p hp
+  simp only [Function.comp]
+  rw [eligible_implies_safe q hw lo hi p.2 hsel hc, buildStats_eq_mergeOf ty hs]
+
+example : (([(crossGen, viewRows 2 9 crossGen), (exData, viewRows 2 9 exData)] : List (SeriesData × List Row)).map
+    (fun p => answer exEligible 2 9 p.1 p.2)).foldl (Stats.merge .int) {}
+    = mergeOf .int (viewRows 2 9 crossGen ++ viewRows 2 9 exData) := by decide
+
 end OG.C09
